@@ -317,6 +317,12 @@ func engineCaseInvCLI(ctx *Ctx) {
 			if len(targets) > 0 && r.Intn(2) == 0 { // the request names a target exactly as the project file spells it
 				q = targets[r.Intn(len(targets))] + " " + vlib.GenQuery(r, words, 1+r.Intn(2), 0)
 			}
+			if qi%4 == 3 {
+				// the argument carries quote characters of its own (a shell that does not strip them, a query pasted with its quotes)
+				qc := []string{"'", "\"", "`"}[r.Intn(3)]
+				q = qc + q + qc
+				ctx.R.Path("cli-queries-wrapped-in-quote-characters", 1)
+			}
 			q2 := c20Respell(r, q, r.Intn(5))
 			kind := "case"
 			if r.Intn(2) == 0 { // whitespace padding
